@@ -1641,6 +1641,22 @@ def check_c19(run, replay):
     progs, hit, labels = pfam.gen_programs(seed_of(run), budget(run, 250, 1500))
     cases = pfam.valid_cases(progs, ("random", "comments")) + pfam.mutant_cases(progs, 3) + pfam.soup_cases(seed_of(run), 300)
     srcs = [c.src for c in cases]
+    # identifiers over the whole code space (letters, digits, neither; BMP characters and the characters that share
+    # their low 16 bits in the supplementary planes): classification must not depend on what was classified before
+    import unicodedata as _ud
+    rngu = __import__("random").Random(seed_of(run) ^ 0x19)
+    cps = []
+    for base in rngu.sample(range(0x80, 0xD7FF), 500) + list(range(0x0660, 0x066A)) + list(range(0x4E00, 0x4E20)) + list(range(0xD7C0, 0xD7D0)):
+        for plane in (0, 0x10000, 0x20000):
+            cp = base + plane
+            try:
+                if _ud.category(chr(cp)) not in ("Cn", "Cs", "Co"):
+                    cps.append(cp)
+            except ValueError:
+                pass
+    for cp in cps:
+        srcs.append("package p; var a%s int" % chr(cp))
+        srcs.append("package p; var %s int" % chr(cp))
     rounds = budget(run, 2, 6)
     total_exec = 0
     for r in range(rounds):
